@@ -99,9 +99,17 @@ def parseAssign (ws : List String) : Option Assign :=
     | [k, v] => v.toInt?.map (k, ·)
     | _ => none
 
-def handleCt (ws : List String) : String :=
-  let (hd, tl) := ws.span (· != "|")
-  match parseCsvRows hd, tl.drop 1 with
+/-- a table written out column by column (not through the CSV reader): `COL` opens a column, `key:cell` puts a value
+    set under a key of the current column - so ANY column may lack ANY key -/
+def parseDirect (ws : List String) : Option Table :=
+  (ws.foldlM (fun (t : List Comb) w =>
+    if w = "COL" then some ([] :: t) else
+    match w.splitOn ":", t with
+    | [k, cell], c :: rest => (parseCellTok cell).map fun ce => ((c.filter (·.1 != k)) ++ [(k, parseCell (.set {}) ce)]) :: rest
+    | _, _ => none) []).map List.reverse
+
+def answer (t : Option Table) (q : List String) : String :=
+  match t, q with
   | some t, ["SHOW"] => showTable t
   | some t, "ALLOWED" :: kvs => match parseAssign kvs with
     | some a => if isAllowed t a then "T" else "F"
@@ -115,5 +123,13 @@ def handleCt (ws : List String) : String :=
       | none => "FAIL"
     | none => "bad-op"
   | _, _ => "bad-op"
+
+def handleCt (ws : List String) : String :=
+  let (hd, tl) := ws.span (· != "|")
+  answer (parseCsvRows hd) (tl.drop 1)
+
+def handleDt (ws : List String) : String :=
+  let (hd, tl) := ws.span (· != "|")
+  answer (parseDirect hd) (tl.drop 1)
 
 end VC2.Model.Constraint
